@@ -6,9 +6,20 @@ from .. import core
 
 PROP = "C04"
 MODULE = "GmqttVerif.Properties.C04"
-THEOREMS = ["GmqttVerif.Inbound.qos2_exactly_once", "GmqttVerif.Inbound.qos2_exactly_once_at",
-            "GmqttVerif.Inbound.id_reusable_after_release", "GmqttVerif.Inbound.duplicate_not_delivered",
-            "GmqttVerif.Inbound.acks_match", "GmqttVerif.Inbound.hook_rejection_not_recorded"]
+THEOREMS = ["GmqttVerif.Inbound.qos2_exactly_once",
+            "GmqttVerif.Inbound.qos2_exactly_once_at",
+            "GmqttVerif.Inbound.id_reusable_after_release",
+            "GmqttVerif.Inbound.duplicate_not_delivered",
+            "GmqttVerif.Inbound.acks_match",
+            "GmqttVerif.Inbound.hook_rejection_not_recorded",
+            "GmqttVerif.Broker.qos2_forward_iff",
+            "GmqttVerif.Broker.publish_forwards_iff",
+            "GmqttVerif.Broker.accepted_publish_is_tail",
+            "GmqttVerif.Broker.pubrel_releases",
+            "GmqttVerif.Broker.unack_refines_inbound",
+            "GmqttVerif.Broker.qos2_exactly_once_broker",
+            "GmqttVerif.Broker.qos2_refines_component"]
+EXTRA_MODULES = ['GmqttVerif.Properties.C04Broker']
 COMPS = ["unack", "broker"]
 
 
